@@ -194,16 +194,22 @@ def getPageContents (os : Objects) (pid : ObjId) : List ObjId :=
     | none => []
     | some c => contentsAux os (DEREF_LIMIT - 1) c
 
-/-- `Document::get_page_content`; `decomp` stands for `Stream::decompressed_content`
-(filters: properties C04/C09) — `none` = `Err`, then the raw content is used. Writing into a
-`Vec` cannot fail, so the result is always `Ok`. -/
-def getPageContent (decomp : Dict → Bytes → Option Bytes) (os : Objects) (pid : ObjId) : Outcome Bytes :=
-  .ok ((getPageContents os pid).foldl (fun acc id =>
-    match (getObject os id).bind Obj.asStream with
-    | none => acc
-    | some (d, c) => match decomp d c with
-      | some data => acc ++ data
-      | none => acc ++ c) [])
+/-- `Document::get_page_content`; `decomp` stands for `Stream::decompressed_content` (filters:
+property C09, `decompressedContent` of `Model/Filters.lean`) — on `Err` the raw content is used; a
+panic inside it would unwind through the query. Writing into a `Vec` cannot fail, so the result is
+`Ok` whenever the filters do not panic. -/
+def getPageContent (decomp : Dict → Bytes → Outcome Bytes) (os : Objects) (pid : ObjId) : Outcome Bytes :=
+  (getPageContents os pid).foldl (fun (acc : Outcome Bytes) id =>
+    match acc with
+    | .ok sofar =>
+      match (getObject os id).bind Obj.asStream with
+      | none => .ok sofar
+      | some (d, c) =>
+        match decomp d c with
+        | .ok data => .ok (sofar ++ data)
+        | .err _ => .ok (sofar ++ c)
+        | .panic s => .panic s
+    | other => other) (.ok [])
 
 /-! ### resources (src/document.rs 626-653): recursion guarded by `already_seen` -/
 
